@@ -16,7 +16,7 @@ FUNCTIONS = ['hotxlfp.formulas.operators:evaluate_arithmetic', 'hotxlfp.formulas
              'hotxlfp.formulas.utils:serialize_date', 'hotxlfp.formulas.utils:parse_date',
              'hotxlfp.helper.number:to_number',
              'hotxlfp.grammarparser.parser:FormulaParser.p_expression_arithmetic_operator']
-RULE = ('ordered pairs of operands from a pool of 91 values under each of + - * / &, injected as variables x, y. Pool: 68 scalars = '
+RULE = ('ordered pairs of operands from a pool of 91 values under each of + - * / &, injected as variables x, y (key `via`: by another route, below). Pool: 68 scalars = '
         '8 ints (up to 2^40), 6 floats (incl. -0.0, 0.1), TRUE, FALSE, blank; 11 numeric texts (signs, decimals, spaces, underscore, '
         'leading zeros, exponent), 6 non-numeric texts (incl. empty, "TRUE", "#N/A"), 3 ISO date texts, 8 texts with quotation '
         'marks of either kind at their ends or inside, 3 integers beyond 2^53 that no double holds and 5 such digit strings as '
@@ -27,17 +27,28 @@ RULE = ('ordered pairs of operands from a pool of 91 values under each of + - * 
         'arrays, plus a seeded sample of 700*scale pairs of the whole product. Both tiers: the quoted texts against the 17 and '
         'each other. lit cases: every case with a quoted text, and 10 % of the other cases with a text operand, is run again with '
         'the text operands written as string literals (delimited by the quote kind they do not contain) instead of variables. '
+        'via cases (both tiers): a (pair, operator) case is followed by a twin with key `via` when one of its operands is an empty '
+        'text, a zero (0, -0.0) or FALSE and a seeded draw is below 0.5, or when a further draw is below 0.08 (so 8 % of the other '
+        'cases too); via = cell (2 of 3) - the formula is A1 op B1 and the parser\'s callCellValue listener hands x for A1, y for B1 '
+        'to its setter - or fn (1 of 3) - the formula is GX() op GY(), host functions that return x and y: an empty text stays an '
+        'empty text, a zero a zero, FALSE a logical on these routes; about 1150 cell + 590 fn twins among the about 17200 cases of quick at scale 1 '
+        '(about 3500 + 1800 of 58800 thorough). The oracle is the same; the model request of a via case keeps the variable formula x op y '
+        'with x, y as variables (the model sees the operands as variables whatever the route). '
         'Compared with the model unless an operand (or array element) is numeric text beyond ASCII decimal syntax or date text '
         'beyond ISO-8601 (oracle only). Oracle: the conversion table on exact rationals (ints exactly, floats within 8 ulp or 1e-9 '
         'relative, dates within 2 ms), the operands are left unchanged (repr), + and * give the same outcome with the operands '
-        'swapped (floats within 1e-12 relative; up to the error code when both operands hold errors). Not judged: foreign '
+        'swapped (the swapped run is always the variable formula x op y, also for via and lit cases; floats within 1e-12 relative; up to the error code when both operands hold errors). Not judged: foreign '
         'operands without an error beside them; & on floats, logicals, dates, arrays; results beyond year 9999. Non-trivial = '
         'neither operand is an error or a foreign object. When a proof or the correspondence broke: the complete product.')
 TRUSTED = ['Python int/float arithmetic (floats are modelled by exact rationals; results compared within 4 ulp or 1e-9 relative - serial arithmetic on date-times cancels ~5 digits)',
            'int()/float() text parsing beyond ASCII decimal syntax and dateutil beyond ISO-8601 are library behaviour '
            '(such operands are judged by the oracle only, not compared with the model; the oracle classifies text with int(), float() '
            'and dateutil.parser.parse itself: text they accept is a number / a date)',
-           'str() of floats, dates and lists under & is not fixed by the statement and not modelled']
+           'str() of floats, dates and lists under & is not fixed by the statement and not modelled',
+           'via: one parser serves all cases; its callCellValue listener answers A1 / B1 (any other label: None) and its host '
+           'functions GX / GY return the operands of the running case from a table the harness fills before every evaluation; the '
+           'model has neither route - for a via case it evaluates x op y on variables, so that the routes agree with the variable '
+           'route is tied by the comparison of the via record with that model answer and by the oracle']
 ASSUMPTIONS = ['a one-element array acts as its element (the code\'s adapt_value), on either side and at any depth, so only lengths m != n, '
                'both != 1, are a mismatch (#VALUE!); two one-element arrays give a one-element array; otherwise element-wise',
                'date results with serial in [0,1) or inside the phantom 29 Feb 1900 (60,61) are not judged beyond being a date-time '
@@ -45,7 +56,10 @@ ASSUMPTIONS = ['a one-element array acts as its element (the code\'s adapt_value
                'the table as read by the oracle: logicals are 1/0, blank is 0, non-numeric text is #VALUE!, x/0 is #DIV/0!, an error '
                'operand is the result (the left one first); the result is a date for number or blank +,-,* date (either order) and '
                'number / date, date / number; date - date and every other combination give a number',
-               '&: text verbatim, integers as their digits, blank as nothing, errors propagate (the left one first)']
+               '&: text verbatim, integers as their digits, blank as nothing, errors propagate (the left one first)',
+               'the table is about the operand VALUES, not about how they reach the operator: a value answered by a cell listener or '
+               'returned by a host function is converted like the same value held by a variable (an empty text is non-numeric text, '
+               'not a blank; 0 and FALSE are a number and a logical, not a blank)']
 EXHAUSTIVE = {'quick': False, 'thorough': True}
 
 D = datetime.datetime
